@@ -560,6 +560,21 @@ func (vfs *MemFS) mkdirAll(path string, perm fs.FileMode) (retry bool, err error
 	seq := vfs.renameSeqNow()
 
 	parent, child, pi, err := vfs.searchNode(path, slmEval)
+	if err != vfs.err.FileExists {
+		broken := vfs.brokenLinkOnPath(path)
+
+		if vfs.renameSeqNow() != seq {
+			// an entry has been moved or a symbolic link removed since the path walk.
+			return true, nil
+		}
+
+		if broken {
+			// a symbolic link that does not lead to a directory is an existing name that is not a directory :
+			// nothing is created through it.
+			return false, &fs.PathError{Op: op, Path: path, Err: vfs.err.FileExists}
+		}
+	}
+
 	switch child.(type) {
 	case *dirNode:
 		if err != vfs.err.FileExists {
@@ -607,6 +622,29 @@ func (vfs *MemFS) mkdirAll(path string, perm fs.FileMode) (retry bool, err error
 	}
 
 	return false, nil
+}
+
+// brokenLinkOnPath reports whether one of the elements of path is a symbolic link
+// that can't be followed to an existing file or directory (dangling link, loop, ...).
+func (vfs *MemFS) brokenLinkOnPath(path string) bool {
+	absPath, _ := vfs.Abs(path)
+	pi := avfs.NewPathIterator[*MemFS](vfs, absPath)
+
+	for pi.Next() {
+		_, child, _, err := vfs.searchNode(pi.LeftPart(), slmLstat)
+		if err != vfs.err.FileExists {
+			return false
+		}
+
+		if _, ok := child.(*symlinkNode); ok {
+			_, _, _, err = vfs.searchNode(pi.LeftPart(), slmEval)
+			if err != vfs.err.FileExists {
+				return true
+			}
+		}
+	}
+
+	return false
 }
 
 // MkdirTemp creates a new temporary directory in the directory dir
